@@ -2362,6 +2362,20 @@ impl<'s> Semantics<'s> {
         Ok(())
     }
 
+    /// True if the instruction is a string move (two memory operands): capstone
+    /// gives the SSE2 scalar move `movsd xmm, xmm/m64` the id of the string
+    /// instruction `movsd`.
+    pub fn is_string_move(&self) -> bool {
+        match self.details() {
+            Ok(detail) => {
+                detail.op_count == 2
+                    && detail.operands[0].type_ == x86_op_type::X86_OP_MEM
+                    && detail.operands[1].type_ == x86_op_type::X86_OP_MEM
+            }
+            Err(_) => false,
+        }
+    }
+
     pub fn movs(&self, control_flow_graph: &mut ControlFlowGraph) -> Result<(), Error> {
         let detail = self.details()?;
 
